@@ -27,7 +27,6 @@ class LexInfo:
     def _read_enum(self, name):
         cd = self.m.clsdef(ClassRef(LEX, name))
         members = []
-        pairing_ok = False
         for st in cd.body:
             if isinstance(st, ast.Assign) and len(st.targets) == 1 and isinstance(st.targets[0], ast.Name):
                 nm = st.targets[0].id
@@ -38,16 +37,27 @@ class LexInfo:
                 except Exception:
                     continue
                 members.append((nm, val))
-            if isinstance(st, ast.FunctionDef) and st.name == '_after_init':
-                # it = iter(cls); for a in it: b = next(it); a.other = b; b.other = a
-                src = ast.unparse(st)
-                pairing_ok = all(x in src for x in ('it = iter(cls)', 'for a in it', 'b = next(it)', 'a.other = b', 'b.other = a'))
-        if not pairing_ok:
-            raise AnalysisError(f'lex.py {name}._after_init: the consecutive-pair `.other` wiring was not recognised')
+        # the `.other` wiring: the class's _after_init folded over its members in definition order
+        from .minieval import Interp, Obj, Raised
         names = [n for n, _ in members]
-        for i in range(0, len(names) - 1, 2):
-            self.other[names[i]] = names[i + 1]
-            self.other[names[i + 1]] = names[i]
+        fn, _owner = self.m.method(ClassRef(LEX, name), '_after_init')
+        if fn is None or not hasattr(fn, 'node'):
+            raise AnalysisError(f'lex.py {name}._after_init not found')
+        mocks = [Obj(n, name=n) for n in names]
+
+        class ClsM(list):
+            pass
+        clsm = ClsM(mocks)
+        it = Interp(dict(super=lambda *a: Obj('super', _after_init=lambda: None)), where=f'lang/lex.py {name}._after_init')
+        try:
+            it.call(fn.node, [clsm])
+        except Raised as e:
+            raise AnalysisError(f'lex.py {name}._after_init does not fold: {e.text}')
+        for mk in mocks:
+            o = getattr(mk, 'other', None)
+            if o is None or not hasattr(o, 'name'):
+                raise AnalysisError(f'lex.py {name}._after_init leaves {mk.name}.other unset')
+            self.other[mk.name] = o.name
         if name == 'Operator':
             self.operators = names
             for n, v in members:
